@@ -9,21 +9,25 @@ import numpy as np
 from .. import coqrun
 from ..core import Corr
 from ..coqrun import cstr, clist, cbool, cq
-from ..translate import ptable, srd144, periodgroup, radii
+from ..translate import ptable, srd144, periodgroup, radii, codata
 from . import c01
 
 PID = "C17"
 ALLOWED_AXIOMS = set()
 REQ = ["QV.Common.Outcome", "QV.Common.PyAscii", "QV.Model.PeriodicTable", "QV.Model.Radii"]
-EXTRA_TARGETS = ["Model/Radii.vo"]
+REQU = REQ + ["QV.Model.RadiiUnits"]
+EXTRA_TARGETS = ["Model/Radii.vo", "Model/RadiiUnits.vo"]
 
 TRUSTED = [
     "translators harness/translate/radii.py (both radii data modules and the `aliases` literal of CovalentRadii.__init__ -> Gen/Radii.v, "
     "values as verbatim decimal strings), ptable.py, srd144.py, periodgroup.py",
     "hand-written model coq/Model/Radii.v of CovalentRadii/VanderWaalsRadii.__init__ and .get and of Datum.to_units, on top of the C01 "
     "periodic-table model; tied by differential execution (this file)",
-    "the unit factor is an INPUT of the model: constants.conversion_factor(native, units) as reported by the implementation (pint, C03); "
-    "the oracle only sanity-checks it (angstrom->angstrom = 1 exactly, angstrom->bohr = 1/bohr2angstroms, pm/nm/m powers of ten, 1e-12 relative)",
+    "default unit (Bohr): the factor is DERIVED in the model: 1 / bohr2angstroms, bohr2angstroms = the alias expression of context.py "
+    "(Gen/Aliases.v) over the shipped CODATA table of the default context (Gen/Codata2014.v / 2018; default year translated from context.py); "
+    "trusted there: that pint defines bohr as <'bohr radius' value> metre and angstrom as 1e-10 metre (read in ureg.py, not translated)",
+    "other units (pm, nm, m, explicit angstrom): the factor stays an INPUT of the model (constants.conversion_factor as reported, pint, C03); "
+    "the oracle sanity-checks it (angstrom->angstrom = 1 exactly, pm/nm/m powers of ten, 1e-12 relative)",
     "float arithmetic: the model is exact (Q); the implementation's factor*float(data) is compared to it within 2^-51 relative (two roundings) and, "
     "in the oracle, bit-exactly against the same IEEE product recomputed from the source string",
     "pydantic Datum construction/validation is not modelled beyond the four fields label, units, data, comment",
@@ -43,6 +47,7 @@ def translate(ctx):
     srd144.generate(ctx.repo)
     periodgroup.generate(ctx.repo)
     radii.generate(ctx.repo)
+    codata.generate(ctx.repo)     # Gen/Codata2014.v, Codata2018.v, Aliases.v (shared with C02/C03): the Bohr radius and the alias expression
 
 
 # ------------------------------------------------------------------------------------------------
@@ -416,6 +421,61 @@ def correspond(ctx):
     if len(bad) > 8:
         corr.notes.append(f"{len(bad)} model/implementation disagreements in total")
 
+    # the default call get(atom) (Bohr) against the CODATA-tied model: tabulated / bohr2angstroms, exact rationals
+    import qcelemental
+    year = radii.load(ctx.repo)["codata_year"]
+    try:
+        shipped = {r[0]: r[3] for r in codata.read_shipped(ctx.repo, year)["rows"]}
+        b2a = Fraction(Decimal(shipped["bohr radius"])) * 10 ** 10
+    except Exception as e:  # noqa: BLE001
+        corr.errors.append(f"cannot read the CODATA {year} table: {e!r}")
+        b2a = None
+    bterms, bmeta = [], []
+    cobj, vobj = _objs()
+    done = set()
+    for stream, x, cov, _combos in plan:
+        k = (cov, type(x).__name__, x)
+        if k in done or stream == "fallbacks" or (isinstance(x, str) and not x.isascii()):
+            continue
+        done.add(k)
+        try:
+            out = ("Ok", (cobj if cov else vobj).get(x))
+        except Exception as e:  # noqa: BLE001
+            out = ("Err", type(e).__name__)
+        corr.count("default-bohr")
+        case = _case(cov, x, None, False, "bohr", c01.collide_history(x))
+        exp = rs.expect(cov, x)
+        if b2a is not None and exp[0] == "entry":
+            want = Fraction(Decimal(exp[3])) / b2a
+            if not (out[0] == "Ok" and isinstance(out[1], float) and abs(Fraction(out[1]) - want) <= want * Fraction(1, 2 ** 50)):
+                corr.failures.append({"stream": "oracle", "case": case, "observed": repr(out),
+                                      "what": f"default result {out!r} is not tabulated {exp[3]} / bohr2angstroms (CODATA{year} Bohr radius x 1e10) = {float(want)!r} within 2^-50"})
+        if out[0] == "Ok" and isinstance(out[1], float) and math.isfinite(out[1]):
+            bterms.append(f"({cbool(cov)}, {c01.cval(x)}, (Ok {cq(Fraction(out[1]))}))")
+        elif out[0] == "Err":
+            bterms.append(f"({cbool(cov)}, {c01.cval(x)}, (Err {EK.get(out[1], 'PyAssertion')}))")
+        else:
+            continue
+        bmeta.append((case, out))
+    bad, errors = c01.eval_cases("C17bohr", REQU, "check_bohr", bterms, max(200, len(bterms) // 16 + 1), "bool * pyval * outcome Q")
+    corr.errors.extend(f"default-bohr shard {k}: {e}" for k, e in errors)
+    for b in bad[:5]:
+        corr.disagreements.append({"stream": "default-bohr", "case": bmeta[b][0], "impl": repr(bmeta[b][1]),
+                                   "model": "not within 2^-50 of tabulated / bohr2angstroms: " + bterms[b][:200]})
+    # the singleton's CODATA set and its bohr2angstroms float
+    cname, cb2a = qcelemental.constants.name, qcelemental.constants.bohr2angstroms
+    corr.count("bohr2angstroms")
+    if cname != f"CODATA{year}" or not isinstance(cb2a, float) or (b2a is not None and Fraction(cb2a) != Fraction(float(b2a))):
+        corr.failures.append({"stream": "oracle", "case": {"kind": "factor"}, "observed": [cname, repr(cb2a)],
+                              "what": f"constants is {cname} with bohr2angstroms {cb2a!r}; expected CODATA{year} and the double nearest to Bohr radius x 1e10"})
+    if isinstance(cb2a, float) and cname.startswith("CODATA") and cname[6:].isdigit():
+        m, e = c01.fdecomp(cb2a)
+        bad, errors = c01.eval_cases("C17b2a", REQU, "check_b2a", [f"({c01.czb(int(cname[6:]))}, ({c01.czb(m)}, {c01.czb(e)}))"], 10, "Z * (Z * Z)")
+        corr.errors.extend(f"b2a shard {k}: {e}" for k, e in errors)
+        if bad:
+            corr.disagreements.append({"stream": "bohr2angstroms", "case": {"kind": "factor"}, "impl": [cname, repr(cb2a)],
+                                       "model": "context year / nearest double of the model's bohr2angstroms differ"})
+
     # the constructed dictionaries, entry by entry, and their key sets
     c, v = _objs()
     eterms, emeta, kterms = [], [], []
@@ -610,7 +670,9 @@ LEVEL_TEXT = (
     "Machine-checked (Coq 8.16.1) theorems about Model/Radii.v over tables regenerated from /repo on every run: C17_radius_by_element (ANY identifier "
     "whose element symbol is e gets exactly the answer of e — every fallback, return form, factor, both sets) and C17_alias_invariant_radius (every "
     "periodic-table row x int/digit string/symbol/name x any letter case, via C01's lemmas); C17_special_labels_own_entry / C17_vdw_rows_own_entry "
-    "(every source row returns its own Datum and factor x value); C17_bare_element_is_largest_variant (C, Mn, Fe, Co); units: "
+    "(every source row returns its own Datum and factor x value); C17_bare_element_is_largest_variant (C, Mn, Fe, Co); C17_bohr2angstroms_from_codata and "
+    "C17_default_is_tabulated_over_bohr2angstroms (the default result is the tabulated Angstrom decimal divided by Bohr radius x 10^10 of the "
+    "default CODATA set, as exact rationals, for ALL identifiers; the implementation's float is within 2^-50 relative of it); units: "
     "C17_value_is_tabulated_times_factor, C17_native_unit_exact, C17_linear_in_factor, C17_all_entries_native_unit, C17_datum_carries_source_value "
     "(exact rational arithmetic, the factor being the one the implementation reports); C17_missing_contract (non-atom -> NotAnElementError; atom "
     "without entry -> exactly the caller's fallback, parametrically in its type, or DataUnavailableError; atom with entry never the fallback) and "
